@@ -911,7 +911,7 @@ class XsdElement(XsdComponent, ParticleMixin,
             except (XMLSchemaValueError, XMLSchemaTypeError) as err:
                 context.validation_error(validation, self, err, obj)
             else:
-                if any(x is not None for x in fields) or nilled:
+                if None not in fields or nilled:
                     try:
                         counter.increase(fields)
                     except ValueError as err:
